@@ -2,6 +2,8 @@
 C13 property theorems (statements only; helper lemmas are in Lemmas*.lean).
 -/
 import BV.C13.LemmasMerkle
+import BV.C13.LemmasBasic
+import BV.C13.LemmasScript
 import BV.Generated.C13
 namespace BV.C13
 open Spec
@@ -42,6 +44,149 @@ theorem mroot_dup_last {α : Type} (H : α → α → α) (zero : α) (l : List 
 
 example : storeRoot (fun a b : Nat => 10 * a + b) 0 [1, 2, 3] = some 153 := by
   rw [store_root_eq_spec _ 0 [1, 2, 3] (by simp)]; simp [mroot, pairUp]
+
+/-! ### witness commitment -/
+
+/-- `ExtractWitnessCommitment` returns the 32 bytes after the magic of the LAST coinbase output whose
+    script is ≥ 38 bytes and starts with 6a24aa21a9ed; nothing for a non-coinbase. -/
+theorem extractCommitment_eq_spec (t : Tx) :
+    extractWitnessCommitment t = if t.isCoinBase then commitment (t.outs.map (·.pk)) else none :=
+  Lemmas.extractCommitment_eq_spec t
+
+/-- `ValidateWitnessCommitment` accepts exactly: a non-empty block whose coinbase has an input and
+    either no commitment and no witness data anywhere, or a commitment equal to
+    `dhash (witness root ‖ nonce)` with the coinbase witness being exactly one 32-byte nonce. -/
+theorem validateCommitment_iff (dhash : Bytes → Bytes) (root : Bytes) (cb : Tx) (rest : List Tx)
+    (in0 : TxIn) (ins : List TxIn) (hins : cb.ins = in0 :: ins) :
+    validateWitnessCommitment dhash (some root) (cb :: rest) = .ok ↔
+      (extractWitnessCommitment cb = none ∧ (cb :: rest).any Tx.hasWitness = false) ∨
+      (∃ c nonce, extractWitnessCommitment cb = some c ∧ in0.witness = [nonce] ∧
+        nonce.length = 32 ∧ dhash (root ++ nonce) = c) := by
+  unfold validateWitnessCommitment
+  simp only [hins]
+  cases hc : extractWitnessCommitment cb with
+  | none =>
+    simp only []
+    by_cases hw : (cb :: rest).any Tx.hasWitness = true
+    · simp [hw]
+    · simp [hw]
+  | some c =>
+    simp only []
+    match hwit : in0.witness with
+    | [] => simp
+    | [nonce] =>
+      simp only [CoinbaseWitnessDataLen]
+      by_cases hl : nonce.length = 32
+      · by_cases hd : dhash (root ++ nonce) = c <;> simp [hl, hd]
+      · simp [hl]
+    | _ :: _ :: _ => simp
+
+/-- an empty block / a coinbase without inputs is rejected before anything is hashed -/
+theorem validateCommitment_degenerate (dhash : Bytes → Bytes) (root : Option Bytes) (cb : Tx) (rest : List Tx)
+    (h : cb.ins = []) :
+    validateWitnessCommitment dhash root [] = .noTransactions ∧
+    validateWitnessCommitment dhash root (cb :: rest) = .noTxInputs := by
+  simp [validateWitnessCommitment, h]
+
+/-! ### weight -/
+
+/-- transactions whose inputs carry 32-byte previous-output hashes (every decoded transaction) -/
+abbrev TxWf (t : Tx) : Prop := Lemmas.Tx.wf t
+
+/-- `GetTransactionWeight` = 3·|stripped serialization| + |full serialization|: the size arithmetic
+    (`baseSize`, `SerializeSize`) equals the length of what `btcEncode` writes. -/
+theorem weight_def (t : Tx) (h : TxWf t) :
+    txWeight t = 3 * (t.serialize false).length + (t.serialize true).length :=
+  Lemmas.txWeight_def t h
+
+/-- `GetBlockWeight` = 4·(80 + |varint n|) + Σ transaction weights. -/
+theorem blockWeight_def (txs : List Tx) :
+    blockWeight txs = 4 * (80 + varIntSize txs.length) + (txs.map txWeight).sum :=
+  Lemmas.blockWeight_def txs
+
+/-- without witness data the weight is exactly 4 × the serialized size -/
+theorem weight_no_witness (t : Tx) (h : TxWf t) (hw : t.hasWitness = false) :
+    txWeight t = 4 * (t.serialize true).length := by
+  rw [weight_def t h]
+  simp [Tx.serialize, hw]
+  omega
+
+example : TxWf ⟨1, [⟨List.replicate 32 0, 0, [], 0, []⟩], [], 0⟩ := by
+  intro i hi; simp at hi; subst hi; simp
+
+/-! ### signature operations -/
+
+/-- `GetSigOpCount` / `countSigOpsV0(precise)` = the protocol count for every script (shorter than
+    2 GiB: the tokenizer's offsets are int32): CHECKSIG(VERIFY) = 1, CHECKMULTISIG(VERIFY) = the
+    preceding OP_1..OP_16 in precise mode else 20, push data (direct and 0x4c–0x4e) skipped, a
+    malformed push stops the count and keeps what was counted. -/
+theorem sigops_legacy_eq_spec (s : Bytes) (precise : Bool) (hs : s.length < 2^31) :
+    countSigOpsV0 s precise = sigOps precise s := Lemmas.countSigOpsV0_eq_spec s precise hs
+
+/-- the tokenizer agrees with the protocol's `GetOp` on every script -/
+theorem tokenizer_eq_getOp (s : Bytes) (hs : s.length < 2^31) :
+    tokNext s = match getOp s with
+      | some (o, d, r) => .op o d r
+      | none => if s = [] then .done else .err := Lemmas.tokNext_eq s hs
+
+/-- unified cost = 4·(legacy + P2SH) + witness, when every spent output is available -/
+theorem sigOpCost_def (t : Tx) (utxos : List Utxo) (p w : Nat)
+    (hp : countP2SHSigOps t false utxos = some p)
+    (hw : witnessLoop (t.ins.zip utxos) 0 = some w) :
+    getSigOpCost t false utxos true true = some (4 * (countSigOps t + p) + w) := by
+  unfold getSigOpCost
+  simp only [hp, if_true, Option.map_some, WITNESS_SCALE_FACTOR, Bool.not_false, and_self]
+  rw [Lemmas.witnessLoop_acc, hw]
+  simp only [Option.map_some]
+  congr 1; omega
+
+/-! ### finality and BIP68 -/
+
+/-- `IsFinalizedTransaction` = `IsFinalTx`: lock time 0, or below the height/time it refers to
+    (threshold 500 000 000), or every input sequence is 0xffffffff. -/
+theorem finalized_iff (lt : Nat) (seqs : List Nat) (h t : Int) :
+    isFinalizedTransaction lt seqs h t = true ↔
+      (lt = 0 ∨ (lt : Int) < (if lt < 500000000 then h else t) ∨ ∀ s ∈ seqs, s = 0xffffffff) := by
+  rw [Lemmas.finalized_eq_spec]
+  unfold isFinal LOCKTIME_THRESHOLD SEQUENCE_FINAL
+  simp only [List.all_eq_true, Bool.or_eq_true, decide_eq_true_eq, or_assoc]
+
+/-- `calcSequenceLock` = BIP68 `CalculateSequenceLocks` for a non-coinbase transaction whose inputs
+    are all in the view at heights that leave room for the 16-bit offset (no int32 wrap). -/
+theorem sequenceLock_eq_bip68 (csvActive : Bool) (version : Nat) (nodeHeight : Int) (ins : List LockInput)
+    (hok : Lemmas.LockInputsOk (nodeHeight + 1) ins) :
+    calcSequenceLock csvActive version false nodeHeight ins =
+      (let r := sequenceLocks (decide (version ≥ 2) && csvActive) (ins.map (Lemmas.toSeqInput (nodeHeight + 1)))
+       LockResult.ok r.2 r.1) := by
+  unfold calcSequenceLock sequenceLocks
+  by_cases h : (decide (version ≥ 2) && csvActive) = true
+  · simp only [h, Bool.not_true, Bool.or_false, Bool.false_eq_true, if_false]
+    rw [Lemmas.lockLoop_eq _ _ _ _ hok (by omega) (by omega)]
+    rfl
+  · have h' : (decide (version ≥ 2) && csvActive) = false := by simpa using h
+    simp [h']
+
+/-- version < 2, CSV inactive or a coinbase: no constraint (−1, −1) -/
+theorem sequenceLock_disabled (csvActive : Bool) (version : Nat) (cb : Bool) (nodeHeight : Int)
+    (ins : List LockInput) (h : version < 2 ∨ csvActive = false ∨ cb = true) :
+    calcSequenceLock csvActive version cb nodeHeight ins = .ok (-1) (-1) := by
+  unfold calcSequenceLock
+  rcases h with h | h | h
+  · have : decide (version ≥ 2) = false := by simp; omega
+    simp [this]
+  · simp [h]
+  · simp [h]
+
+/-- `SequenceLockActive` = BIP68 `EvaluateSequenceLocks`: both locks strictly below the block's
+    height / the previous block's median time past. -/
+theorem lockActive_iff (s h bh mtp : Int) :
+    sequenceLockActive s h bh mtp = true ↔ (h < bh ∧ s < mtp) := by
+  rw [Lemmas.lockActive_eq_spec]; simp [locksSatisfied]
+
+example : Lemmas.LockInputsOk 101 [⟨5, some 100, 1500000000⟩, ⟨1 <<< 22 ||| 3, some 0x7fffffff, 1500000000⟩] := by
+  intro i hi
+  simp at hi
+  rcases hi with hi | hi <;> subst hi <;> exact ⟨_, rfl, by decide⟩
 
 /-! ### pinning of regenerated facts (T2) -/
 set_option maxRecDepth 100000 in
